@@ -40,9 +40,10 @@ func (isn *InlineSchemaNamer) Name(key string, schema *spec.Schema, aschema *Ana
 		sch := schutils.Clone(schema)
 
 		// replace values on schema
+		createdRef := spec.MustCreateRef(path.Join(definitionsPath, newName))
+
 		debugLog("rewriting schema to ref: key=%s with new name: %s", key, newName)
-		if err := replace.RewriteSchemaToRef(isn.Spec, key,
-			spec.MustCreateRef(path.Join(definitionsPath, newName))); err != nil {
+		if err := replace.RewriteSchemaToRef(isn.Spec, key, createdRef); err != nil {
 			return ErrInlineDefinition(newName, err)
 		}
 
@@ -61,15 +62,15 @@ func (isn *InlineSchemaNamer) Name(key string, schema *spec.Schema, aschema *Ana
 				isn.opts.flattenContext.warnings = append(isn.opts.flattenContext.warnings, r.Warnings...)
 			}
 
-			if r.Ref.String() != key && (r.Ref.String() != path.Join(definitionsPath, newName) || path.Dir(v.String()) == definitionsPath) {
+			// NOTE: compare with the string representation of the new $ref, which may be escaped (e.g. names with blank space)
+			if r.Ref.String() != key && (r.Ref.String() != createdRef.String() || path.Dir(v.String()) == definitionsPath) {
 				continue
 			}
 
 			debugLog("found a $ref to a rewritten schema: %s points to %s", k, v.String())
 
 			// rewrite $ref to the new target
-			if err := replace.UpdateRef(isn.Spec, k,
-				spec.MustCreateRef(path.Join(definitionsPath, newName))); err != nil {
+			if err := replace.UpdateRef(isn.Spec, k, createdRef); err != nil {
 				return err
 			}
 		}
